@@ -115,6 +115,76 @@ spec fn rd_date_ok(r: RuleDay, y: int, m: int, d: int) -> bool {
 '''
 
 LEMMA = r'''
+
+// ---- from_timespec: days since 2000-03-01 decomposed into 400/100/4/1-year cycles ----
+proof fn march_closed(y: int)
+    ensures epoch_day(y, 3, 1) == 365 * y + y / 4 - y / 100 + y / 400 - 719468,
+            epoch_day(y + 1, 1, 1) == epoch_day(y, 3, 1) + 306, epoch_day(y + 1, 2, 1) == epoch_day(y, 3, 1) + 337
+{ reveal(days_before_year); cum_days_vals(y); cum_days_vals(y + 1); dby_step(y); }
+proof fn cycles_decomp(c400: int, c100: int, c4: int, ry: int)
+    requires 0 <= c100 <= 3, 0 <= c4 <= 24, 0 <= ry <= 3
+    ensures epoch_day(2000 + 400 * c400 + 100 * c100 + 4 * c4 + ry, 3, 1) == 11017 + 146097 * c400 + 36524 * c100 + 1461 * c4 + 365 * ry
+{
+    let y = 2000 + 400 * c400 + 100 * c100 + 4 * c4 + ry;
+    march_closed(y);
+    lemma_fundamental_div_mod_converse(y, 4, 500 + 100 * c400 + 25 * c100 + c4, ry);
+    lemma_fundamental_div_mod_converse(y, 100, 20 + 4 * c400 + c100, 4 * c4 + ry);
+    lemma_fundamental_div_mod_converse(y, 400, 5 + c400, 100 * c100 + 4 * c4 + ry);
+}
+// the 366th day of a March-based year exists only when the following calendar year is a leap year
+proof fn last_day_is_leap(c400: int, c100: int, c4: int)
+    requires 0 <= c100 <= 3, 0 <= c4 <= 24, c4 == 24 ==> c100 == 3
+    ensures is_leap(2000 + 400 * c400 + 100 * c100 + 4 * c4 + 4)
+{
+    let y = 2000 + 400 * c400 + 100 * c100 + 4 * c4 + 4;
+    lemma_fundamental_div_mod_converse(y, 4, 501 + 100 * c400 + 25 * c100 + c4, 0);
+    if c4 < 24 { lemma_fundamental_div_mod_converse(y, 100, 20 + 4 * c400 + c100, 4 * c4 + 4); }
+    else { lemma_fundamental_div_mod_converse(y, 400, 6 + c400, 0); }
+}
+
+proof fn cycles_lemma(c400: int, rd0: int, c100: int, rd1: int, c4: int, rd2: int, ry: int, rd3: int)
+    requires 0 <= rd0 < 146097, c100 == (if rd0 / 36524 <= 3 { rd0 / 36524 } else { 3 }), rd1 == rd0 - c100 * 36524,
+             c4 == (if rd1 / 1461 <= 24 { rd1 / 1461 } else { 24 }), rd2 == rd1 - c4 * 1461,
+             ry == (if rd2 / 365 <= 3 { rd2 / 365 } else { 3 }), rd3 == rd2 - ry * 365
+    ensures 0 <= c100 <= 3, 0 <= c4 <= 24, 0 <= ry <= 3, 0 <= rd3 <= 365,
+            rd3 == 365 ==> is_leap(2000 + 400 * c400 + 100 * c100 + 4 * c4 + ry + 1),
+            epoch_day(2000 + 400 * c400 + 100 * c100 + 4 * c4 + ry, 3, 1) + rd3 == 11017 + 146097 * c400 + rd0
+{
+    assert(0 <= rd1 <= 36524);
+    assert(c100 < 3 ==> rd1 < 36524);
+    assert(0 <= rd2 <= 1460);
+    assert(c4 == 24 && rd2 == 1460 ==> rd1 == 36524);
+    assert(rd3 == 365 ==> ry == 3 && rd2 == 1460);
+    cycles_decomp(c400, c100, c4, ry);
+    if rd3 == 365 { last_day_is_leap(c400, c100, c4); }
+}
+proof fn hms_lemma(rs: int)
+    requires 0 <= rs < 86400
+    ensures (rs / 3600) * 3600 + ((rs / 60) % 60) * 60 + rs % 60 == rs, 0 <= rs / 3600 < 24, 0 <= (rs / 60) % 60 < 60, 0 <= rs % 60 < 60
+{}
+// cumulative month lengths of a March-based year (February last, counted with 29 days)
+spec fn mcum(i: int) -> int {
+    if i <= 0 { 0 } else if i == 1 { 31 } else if i == 2 { 61 } else if i == 3 { 92 } else if i == 4 { 122 } else if i == 5 { 153 } else if i == 6 { 184 }
+    else if i == 7 { 214 } else if i == 8 { 245 } else if i == 9 { 275 } else if i == 10 { 306 } else if i == 11 { 337 } else { 366 }
+}
+proof fn march_month(y0: int, m0: int, rd: int, rd3: int)
+    requires 0 <= m0 <= 11, 0 <= rd, rd + mcum(m0) == rd3, rd3 < mcum(m0 + 1), rd3 <= 365, rd3 == 365 ==> is_leap(y0 + 1)
+    ensures ({ let y = if m0 <= 9 { y0 } else { y0 + 1 }; let m = if m0 <= 9 { m0 + 3 } else { m0 - 9 };
+               epoch_day(y, m, 1 + rd) == epoch_day(y0, 3, 1) + rd3 && 1 + rd <= month_len(y, m) })
+{ cum_days_vals(y0); march_closed(y0); }
+// the Err bounds of from_timespec's contract are the first second of year i32::MIN and of year i32::MAX + 1
+proof fn year_range_consts()
+    ensures epoch_day(-2147483648, 1, 1) * 86400 == -67768100567971200, epoch_day(2147483648, 1, 1) * 86400 == 67767976233532800
+{ reveal(days_before_year); }
+proof fn year_range_err(y: int, m: int, d: int, rs: int, t: int)
+    requires 1 <= m <= 12, 1 <= d <= month_len(y, m), 0 <= rs < 86400, t == epoch_day(y, m, d) * 86400 + rs
+    ensures y > 2147483647 ==> t >= 67767976233532800,
+            y < -2147483648 ==> t < -67768100567971200
+{
+    cum_days_vals(y); year_range_consts();
+    if y > 2147483647 { dby_mono(2147483648, y); }
+    if y < -2147483648 { dby_mono(y + 1, -2147483648); dby_step(y); }
+}
 spec fn days_since_unix_epoch_spec(y: int, m: int) -> int { epoch_day(y, m, 1) }
 proof fn mw_lemma(y: int, m: int, week: int, week_day: int, e1: int, first_wd: int, first_occ: int, dim: int)
     requires 1 <= m <= 12, 1 <= week <= 5, 0 <= week_day <= 6, e1 == epoch_day(y, m, 1), first_wd == (4 + e1) % 7, first_occ == 1 + (week_day - first_wd) % 7, dim == month_len(y, m)
@@ -198,15 +268,20 @@ impl TimeZone for Utc { type Offset = Utc; }
     u.raw('impl UtcDateTime {')
     u.prove(F, 'from_timespec', 'impl UtcDateTime {', cid='UtcDateTime::from_timespec',
             hints=[("let mut remaining_days = seconds / SECONDS_PER_DAY;", "        proof { rust_divrem(seconds as int, 86400); }"),
-                   ("let mut cycles_400_years = remaining_days / DAYS_PER_400_YEARS;", "        proof { rust_divrem(remaining_days as int, 146097); }"),
-                   ("let cycles_100_years =", "        proof { assert(DAYS_PER_400_YEARS == 146097 && DAYS_PER_100_YEARS == 36524 && DAYS_PER_4_YEARS == 1461 && DAYS_PER_NORMAL_YEAR == 365); assert(0 <= remaining_days < 146097); }"),
-                   ("let cycles_4_years =", "        proof { assert(0 <= remaining_days <= 36524); }"),
-                   ("let remaining_years =", "        proof { assert(0 <= remaining_days <= 1460); }"),
-                   ("let mut year = OFFSET_YEAR", "        proof { assert(0 <= remaining_days <= 365); }")],
-            subst=[('Ord::min(remaining_days / DAYS_PER_100_YEARS, 3)', 'min_i64(remaining_days / DAYS_PER_100_YEARS, 3)', 'Ord::min on i64 through its contract stub'),
-                   ('Ord::min(remaining_days / DAYS_PER_4_YEARS, 24)', 'min_i64(remaining_days / DAYS_PER_4_YEARS, 24)', 'Ord::min on i64 through its contract stub'),
-                   ('Ord::min(remaining_days / DAYS_PER_NORMAL_YEAR, 3)', 'min_i64(remaining_days / DAYS_PER_NORMAL_YEAR, 3)', 'Ord::min on i64 through its contract stub'),
-                   ('while month < DAY_IN_MONTHS_LEAP_YEAR_FROM_MARCH.len() {', 'while month < DAY_IN_MONTHS_LEAP_YEAR_FROM_MARCH.len()\n            invariant 0 <= month <= 12, 0 <= remaining_days <= 366,\n            decreases 12 - month\n        {', 'loop invariant attached')])
+                   ("let mut cycles_400_years = remaining_days / DAYS_PER_400_YEARS;", "        let ghost days0 = remaining_days as int;\n        proof { rust_divrem(remaining_days as int, 146097); assert(seconds == days0 * 86400 + remaining_seconds); }"),
+                   ("let cycles_100_years =", "        proof { assert(DAYS_PER_400_YEARS == 146097 && DAYS_PER_100_YEARS == 36524 && DAYS_PER_4_YEARS == 1461 && DAYS_PER_NORMAL_YEAR == 365); assert(0 <= remaining_days < 146097); assert(days0 == cycles_400_years * 146097 + remaining_days); }\n        let ghost rd0 = remaining_days as int;"),
+                   ("let cycles_4_years =", "        proof { assert(0 <= remaining_days <= 36524); }\n        let ghost rd1 = remaining_days as int;"),
+                   ("let remaining_years =", "        proof { assert(0 <= remaining_days <= 1460); }\n        let ghost rd2 = remaining_days as int;"),
+                   ("let mut year = OFFSET_YEAR", "        proof { assert(0 <= remaining_days <= 365); }\n        let ghost rd3 = remaining_days as int;"),
+                   ("let mut month = 0;", "        let ghost y0 = year as int;\n        proof { cycles_lemma(cycles_400_years as int, rd0, cycles_100_years as int, rd1, cycles_4_years as int, rd2, remaining_years as int, rd3); }"),
+                   ("if remaining_days < days {", "            proof { assert(days == mcum(month as int + 1) - mcum(month as int)); }"),
+                   ("month += 2;", "        let ghost m0 = month as int;\n        proof { march_month(y0, m0, remaining_days as int, rd3); }"),
+                   ("let hour = remaining_seconds / SECONDS_PER_HOUR;", "        proof { assert(epoch_day(year as int, month as int, month_day as int) == 11017 + days0); assert(1 <= month_day <= month_len(year as int, month as int)); hms_lemma(remaining_seconds as int); assert(0 <= remaining_seconds < 86400); }"),
+                   ("let minute = (remaining_seconds", "        proof { assert(hour == remaining_seconds as int / 3600); }"),
+                   ("let second = remaining_seconds %", "        proof { assert(minute == (remaining_seconds as int / 60) % 60); }"),
+                   ("let year = match year >=", "        proof { assert(second == remaining_seconds as int % 60); assert(hour * 3600 + minute * 60 + second == remaining_seconds); assert(unix_time == epoch_day(year as int, month as int, month_day as int) * 86400 + remaining_seconds); year_range_err(year as int, month as int, month_day as int, remaining_seconds as int, unix_time as int); }")],
+            subst=[('Ord::min(', 'min_i64(', 'Ord::min on i64 through its contract stub'),
+                   ('while month < DAY_IN_MONTHS_LEAP_YEAR_FROM_MARCH.len() {', 'while month < DAY_IN_MONTHS_LEAP_YEAR_FROM_MARCH.len()\n            invariant 0 <= month <= 12, 0 <= remaining_days <= 366, remaining_days + mcum(month as int) == rd3, rd3 <= 365,\n            ensures month <= 11, 0 <= remaining_days, remaining_days + mcum(month as int) == rd3, rd3 < mcum(month as int + 1),\n            decreases 12 - month\n        {', 'loop invariant attached')])
     u.raw('}\nimpl AlternateTime {')
     u.prove(F, 'new', 'impl AlternateTime {', cid='AlternateTime::new')
     u.prove(F, 'find_local_time_type', 'impl AlternateTime {', cid='AlternateTime::find_local_time_type',
